@@ -413,6 +413,7 @@ def callback_worlds(p, f) -> dict:  # noqa: ANN001
                 if len(rets) != 1:
                     raise AnalysisIncomplete(f'{h.short}: {len(rets)} return paths for average={avg}, symmetric={sym}')
                 got = cb.value(rets[0][0], rets[0][1].value).canon()
+                got = got.replace('get_world_size(group=group)', 'get_world_size(group)')      # keyword spelling of the same call
                 got = got.replace(f'{prm}.value()[0]', 'VALUE[0]' if res != 'VALUE' else 'VALUE').replace(f'{prm}.value()', 'VALUE')
                 if res != 'VALUE' and 'VALUE[0]' in got:
                     raise AnalysisIncomplete(f'{h.short}: a chained callback unpacks its input again')
